@@ -15,17 +15,38 @@ Theorem reader_unrecovered_goroutines_accounted : inventory_ok reader_goroutines
 Proof. vm_compute. reflexivity. Qed.
 Print Assumptions reader_unrecovered_goroutines_accounted.
 
+(* Contract K at the HTTP end: over the regenerated inventory of reader/controller, every `for x := range ch` /
+   for-select receive loop of a handler either cannot leave before its channel is closed (no return / break in its
+   body -- in particular not on a failed w.Write when the client has gone away) or is allow-listed with what
+   covers it (not a channel; a deferred drainer; an encoding error that cannot occur). *)
+Theorem handler_loops_receive_until_close : loops_ok reader_loops = true.
+Proof. vm_compute. reflexivity. Qed.
+Print Assumptions handler_loops_receive_until_close.
+
+(* ... and that is needed: a handler loop that returns at the first failed write breaks the contract. *)
+Theorem handler_must_not_stop_at_a_failed_write : ~ good_node (handler_node (S:=st) (M:=msg) false).
+Proof. exact handler_must_keep_receiving. Qed.
+Print Assumptions handler_must_not_stop_at_a_failed_write.
+
+(* Each allow-listed body that has a model has its lemma: Scan (contract, no fault, index inside the buffer),
+   FixPeriodPlanner (contract; no fault under fix_guard), the encoders (contract, no fault). *)
+Theorem allowlisted_bodies_covered : forall a, In a allow_list -> class_obligation (a_class a).
+Proof. exact allowlisted_bodies_have_their_lemma. Qed.
+Print Assumptions allowlisted_bodies_covered.
+
 (* Generic: for every state and message type, every chain length, every row script and every behaviour of the
-   nodes that (K) never stop receiving without leaving a drainer and (nofault) cannot fault, EVERY interleaving
-   is finite, never crashes, and can only stop with every goroutine returned: all channels closed (each once:
-   a returned cell makes no further step), the cursor released, no send left blocked. *)
+   nodes that (K) never stop receiving without leaving a drainer and (nofault) cannot fault -- the last node being
+   the HTTP handler loop, the client going away (context cancelled, writes failing) at ANY moment being a step of
+   the environment -- EVERY interleaving is finite, never crashes, and whenever no goroutine can move, every
+   goroutine has returned: all channels closed (each once: a returned cell makes no further step), the cursor
+   released, no send left blocked. *)
 Theorem pipeline_terminates : forall (S M : Type) (rows : list M) (stages : list (cell S M)),
   Forall (fun c => good_node (c_node c)) stages ->
   Forall (fun c => nofault_node (c_node c)) stages ->
   Forall fresh_stage stages ->
   let c0 := init_config rows stages in
   Acc (fun c' c : config S M => step c c') c0 /\
-  forall c, star c0 c -> crashed c = false /\ (stuck c -> all_done (cells c)).
+  forall c, star c0 c -> crashed c = false /\ (quiescent c -> all_done (cells c)).
 Proof. exact chain_terminates. Qed.
 Print Assumptions pipeline_terminates.
 
@@ -35,7 +56,7 @@ Theorem pipeline_never_leaks : forall (S M : Type) (rows : list M) (stages : lis
   Forall fresh_stage stages ->
   let c0 := init_config rows stages in
   Acc (fun c' c : config S M => step c c') c0 /\
-  forall c, star c0 c -> stuck c -> crashed c = true \/ all_done (cells c).
+  forall c, star c0 c -> quiescent c -> crashed c = true \/ all_done (cells c).
 Proof. exact chain_no_leak. Qed.
 Print Assumptions pipeline_never_leaks.
 
@@ -53,7 +74,7 @@ Print Assumptions closed_once.
 Theorem wrapprocess_chains_never_leak : forall (opsl : list ops) (k : enck) (rows : list row),
   let c0 := init_config (map MRow rows) (wrap_chain opsl k) in
   Acc (fun c' c : config st msg => step c c') c0 /\
-  forall c, star c0 c -> stuck c -> crashed c = true \/ all_done (cells c).
+  forall c, star c0 c -> quiescent c -> crashed c = true \/ all_done (cells c).
 Proof. exact wrap_chain_no_leak. Qed.
 Print Assumptions wrapprocess_chains_never_leak.
 
@@ -61,7 +82,7 @@ Theorem wrapprocess_chains_terminate : forall (opsl : list ops) (k : enck) (rows
   Forall ops_nofatal opsl ->
   let c0 := init_config (map MRow rows) (wrap_chain opsl k) in
   Acc (fun c' c : config st msg => step c c') c0 /\
-  forall c, star c0 c -> crashed c = false /\ (stuck c -> all_done (cells c)).
+  forall c, star c0 c -> crashed c = false /\ (quiescent c -> all_done (cells c)).
 Proof. exact wrap_chain_terminates. Qed.
 Print Assumptions wrapprocess_chains_terminate.
 
@@ -70,7 +91,7 @@ Print Assumptions wrapprocess_chains_terminate.
 Theorem read_pipelines_never_leak : forall (sh : shape) (c : pctx) (rows : list row),
   let c0 := init_config (map MRow rows) (stages_of sh c) in
   Acc (fun c' c1 : config st msg => step c1 c') c0 /\
-  forall cf, star c0 cf -> stuck cf -> crashed cf = true \/ all_done (cells cf).
+  forall cf, star c0 cf -> quiescent cf -> crashed cf = true \/ all_done (cells cf).
 Proof. exact read_chain_no_leak. Qed.
 Print Assumptions read_pipelines_never_leak.
 
@@ -79,7 +100,7 @@ Theorem read_pipelines_terminate : forall (sh : shape) (c : pctx) (rows : list r
   shape_guard sh c = true ->
   let c0 := init_config (map MRow rows) (stages_of sh c) in
   Acc (fun c' c1 : config st msg => step c1 c') c0 /\
-  forall cf, star c0 cf -> crashed cf = false /\ (stuck cf -> all_done (cells cf)).
+  forall cf, star c0 cf -> crashed cf = false /\ (quiescent cf -> all_done (cells cf)).
 Proof. exact read_chain_terminates. Qed.
 Print Assumptions read_pipelines_terminate.
 
@@ -87,7 +108,7 @@ Print Assumptions read_pipelines_terminate.
 Theorem trace_pipeline_terminates : forall rows : list spank,
   let c0 := init_config (map MSpanRow rows) trace_stages in
   Acc (fun c' c1 : config st msg => step c1 c') c0 /\
-  forall cf, star c0 cf -> crashed cf = false /\ (stuck cf -> all_done (cells cf)).
+  forall cf, star c0 cf -> crashed cf = false /\ (quiescent cf -> all_done (cells cf)).
 Proof. exact trace_chain_terminates. Qed.
 Print Assumptions trace_pipeline_terminates.
 
